@@ -159,6 +159,8 @@ class SameMembers(Matcher):
         return f"{self.__class__.__name__}({self.expected!r})"
 
     def match(self, observed):
+        # Either side may be a one-shot iterator: look at it once.
+        observed = list(observed)
         expected_only = list_subtract(self.expected, observed)
         observed_only = list_subtract(observed, self.expected)
         if expected_only == observed_only == []:
